@@ -11,5 +11,5 @@ def build(tier):
     ts = robust.targets(tier) + fold.targets(tier) + rs + errs.targets_c14(tier) + errs.predicate_targets()
     for t in ts:
         t.id = "c20." + t.id
-    ts = ts + robust.targets_escapes(tier) + robust.targets_daemon(tier) + robust.targets_blocked(tier) + robust.targets_progress(tier) + robust.targets_deferral(tier)
+    ts = ts + robust.targets_escapes(tier) + robust.targets_daemon(tier) + robust.targets_blocked(tier) + robust.targets_progress(tier) + robust.targets_deferral(tier) + robust.targets_property(tier)
     return dict(targets=ts, assumptions=["escape frame: call sites are resolved by simple name; only TypeTranslationError is tracked"], trusted_base=[])
